@@ -12,7 +12,7 @@ from props.common import BASE_TRUSTED
 
 PROP = 'C07'
 KERNELS = ['c07_cs_localize', 'c07_cs_globalize', 'c07_ap_scale', 'c07_ideal_n', 'c07_ideal_k',
-           'c07_get_thickness', 'c07_is_rotsym', 'c07_origins_inf',
+           'c07_get_thickness', 'c07_is_rotsym', 'c07_origins_inf', 'c07_z_offset', 'c07_origins',
            # shared kernels the C07 theorems are stated over
            'translate', 'rotate_x', 'rotate_y', 'rotate_z', 'refract', 'reflect', 'propagate', 'align',
            'std_distance', 'std_normal', 'std_sag', 'plane_distance', 'radial_clip', 'rr_clip',
@@ -164,6 +164,55 @@ def kernel_cases(ctx):
         yield 'c07_origins_inf', cases, {'pyres': pyres, 'tol': 1e-12}
 
 
+    if 'c07_z_offset' in ctx.manifests and 'c07_origins' in ctx.manifests:
+        # the REAL RayGenerator methods on a stub optic (real object geometry, real _get_starting_z_offset)
+        from optiland.rays.ray_generator import RayGenerator
+        from optiland.coordinate_system import CoordinateSystem
+        from optiland.geometries import StandardGeometry
+        zc, zp, oc, op_ = [], [], [], []
+        for i in range(n):
+            inf = (i % 2 == 0)
+            ft = 'other' if i % 31 == 5 else 'object_height' if (i % 4 == 3 or i % 16 == 2) else 'angle'
+            tele = (i % 13 == 0)
+            sc = 10 ** g.uni(-2, 2)               # micro-optics to large lenses: EPD from 0.03 to 900
+            z0 = -INF if inf else -g.uni(10, 400) * sc
+            pos = [z0, 0.0] + sorted(g.uni(-5, 60) * sc for _ in range(g.r.randrange(1, 6))) + [g.uni(60, 120) * sc]
+            if i % 5 == 0:
+                pos[2] = -g.uni(0.5, 5) * sc      # a vertex left of surface 1 (mirror systems)
+            EPL, EPD = g.uni(-40, 40) * sc, g.uni(1, 9) * sc
+            Robj, kobj = g.uni(50, 500) * sc * g.r.choice([-1, 1]), g.r.choice([0.0, -1.0, g.uni(-1, 0.5)])
+            v = {'Hx': g.uni(-1, 1), 'Hy': g.uni(-1, 1), 'Px': g.uni(-1, 1), 'Py': g.uni(-1, 1),
+                 'vx': g.uni(0.6, 1), 'vy': g.uni(0.6, 1),
+                 'self.optic.fields.max_field': g.uni(0, 30) if ft != 'object_height' else g.uni(0, 20) * sc,
+                 'self.optic.object_surface.is_infinite': inf, 'self.optic.field_type': ft,
+                 'self.optic.obj_space_telecentric': tele,
+                 'self.optic.paraxial.EPL()': EPL, 'self.optic.paraxial.EPD()': EPD,
+                 'self.optic.surface_group.positions': pos,
+                 'self.optic.object_surface.geometry.radius': Robj, 'self.optic.object_surface.geometry.k': kobj,
+                 'self.optic.object_surface.geometry.cs.z': 0.0 if inf else z0}
+            rg = object.__new__(RayGenerator)
+            geo = StandardGeometry(CoordinateSystem(z=v['self.optic.object_surface.geometry.cs.z']), Robj, kobj)
+            rg.optic = types.SimpleNamespace(
+                object_surface=types.SimpleNamespace(is_infinite=inf, geometry=geo),
+                fields=types.SimpleNamespace(max_field=v['self.optic.fields.max_field']), field_type=ft,
+                obj_space_telecentric=tele,
+                paraxial=types.SimpleNamespace(EPL=lambda EPL=EPL: EPL, EPD=lambda EPD=EPD: EPD),
+                surface_group=types.SimpleNamespace(positions=np.array(pos)))
+            zc.append(_order(ctx, 'c07_z_offset', v))
+            try:
+                zp.append({'ok': [float(np.ravel(rg._get_starting_z_offset())[0]).hex()]})
+            except Exception as e:   # noqa
+                zp.append({'err': type(e).__name__})
+            oc.append(_order(ctx, 'c07_origins', v))
+            try:
+                x0, y0, z0_ = rg._get_ray_origins(v['Hx'], v['Hy'], np.array([v['Px']]), np.array([v['Py']]), v['vx'], v['vy'])
+                op_.append({'ok': [float(np.ravel(a)[0]).hex() for a in (x0, y0, z0_)]})
+            except Exception as e:   # noqa
+                op_.append({'err': type(e).__name__})
+        yield 'c07_z_offset', zc, {'pyres': zp, 'tol': 1e-12}
+        yield 'c07_origins', oc, {'pyres': op_, 'tol': 1e-12}
+
+
 # ----------------------------------------------------------------------------------------------
 # metamorphic cases on generated lenses
 # ----------------------------------------------------------------------------------------------
@@ -203,6 +252,7 @@ def gen_cases(ctx, nl, rays_per, seed_mul=11):
     """list of metamorphic cases; each: dict(kind, spec, params, ray, w, base=(launch, recs) of the original lens,
     timpl=(launch, recs) of the transformed lens from optiland, surfs0 = model surfaces of the original lens,
     direct = discrepancy of the relation measured on the implementation alone, tol)"""
+    import numpy as np
     import c07lib as L
     import lensgen
     warnings.simplefilter('ignore')
@@ -212,6 +262,9 @@ def gen_cases(ctx, nl, rays_per, seed_mul=11):
             'lenses_with_vignetting_factors': 0,
             'mirror_pairs': {'vignetted_field_and_offaxis_pupil': 0, 'with_negative_Hx': 0, 'with_negative_Hy': 0,
                              'mx': 0, 'my': 0, 'mx_my': 0},
+            'scale_factor_s': {'[0.01,0.1)': 0, '[0.1,1)': 0, '[1,10)': 0, '[10,100]': 0, 'end 0.01': 0, 'end 100': 0},
+            'EPD_times_s': {'infinite object': {'<0.1': 0, '[0.1,1)': 0, '[1,10)': 0, '>=10': 0},
+                            'finite object': {'<0.1': 0, '[0.1,1)': 0, '[1,10)': 0, '>=10': 0}},
             'dummy_split': {'interior': 0, 'contact_previous_vertex(f=0)': 0, 'contact_next_vertex(f=1)': 0},
             'dummy_gap': {'first': 0, 'inner': 0, 'last(before image)': 0},
             'dummy_skipped_plane_outside_gap': {'interior': 0, 'contact_previous_vertex(f=0)': 0, 'contact_next_vertex(f=1)': 0}}
@@ -250,6 +303,12 @@ def gen_cases(ctx, nl, rays_per, seed_mul=11):
         surfs0 = lensgen.model_surfaces(o, w)
         nS = len(spec['surfaces'])
         contact_done = False
+        ends_done = False
+        obj_inf = math.isinf(spec['object_thickness'])
+        try:
+            epd0 = abs(float(np.ravel(o.paraxial.EPD())[0]))
+        except Exception:   # noqa
+            epd0 = float('nan')
         rays = _rays(rng, rays_per)
         if vign:
             # an off-axis field point (either sign) with an off-axis pupil point, where the vignetting factors act
@@ -275,18 +334,45 @@ def gen_cases(ctx, nl, rays_per, seed_mul=11):
                     mp['with_negative_Hx'] += int(min(Hx, Hx1) < 0)
                     mp['with_negative_Hy'] += int(min(Hy, Hy1) < 0)
                     mp['vignetted_field_and_offaxis_pupil'] += int(bool(vign and (Hx or Hy) and (Px or Py)))
-            # ---- scaling by an independently built scaled lens
-            s = 2.0 ** rng.randint(-6, 6) if rng.random() < 0.5 else 10 ** rng.uniform(-2, 2)
-            exact = (math.log2(s) == int(math.log2(s)))
-            try:
-                o2 = L.build(L.scaled_spec(spec, s))
-                r2 = L.trace(o2, Hx, Hy, Px, Py, w)
-            except Exception:   # noqa
-                r2 = ('err',)
-            if r2[0] == 'ok':
-                d = max(L.rec_diff(L.scale_rec(a, s), b, fields=['x', 'y', 'z', 'L', 'M', 'N', 'opd'], scale=s * 100)
-                        for a, b in zip(recs0, r2[1]))
-                add('scale', params={'s': s}, timpl=r2[1], direct=d, tol=(1e-11 if exact else 2e-6), **common)
+            # ---- scaling: every length times s, s log-uniform over the whole stated range [0.01, 100] (half of the draws
+            #      snapped to a power of two, where binary64 scales exactly) for every ray, plus both ENDS of the range
+            #      for the first ray of the lens; by an independently built scaled lens and by Optic.scale_system
+            #      (angular fields); every record incl. the launch point, path length at every surface
+            s_rand = 10 ** rng.uniform(-2, 2)
+            if rng.random() < 0.5:
+                s_rand = min(64.0, max(2.0 ** -6, 2.0 ** round(math.log2(s_rand))))
+            s_plan = [s_rand]
+            if not ends_done:
+                ends_done = True
+                s_plan += [0.01, 100.0]
+            for s in s_plan:
+                exact = (math.log2(s) == int(math.log2(s)))
+                tol_s = 1e-11 if exact else 1e-8
+                for kind in (['scale', 'scale_system_rays'] if spec['field_type'] == 'angle' else ['scale']):
+                    try:
+                        if kind == 'scale':
+                            o2 = L.build(L.scaled_spec(spec, s))
+                        else:
+                            o2 = L.build(spec)
+                            o2.scale_system(s)
+                        r2 = L.trace(o2, Hx, Hy, Px, Py, w)
+                    except Exception:   # noqa
+                        r2 = ('err',)
+                    if r2[0] != 'ok':
+                        continue
+                    # compared in the units of the original lens: positions and paths of the scaled lens divided by s
+                    d = max(L.rec_diff(a, L.scale_rec(b, 1.0 / s), fields=['x', 'y', 'z', 'L', 'M', 'N', 'opd'], scale=100)
+                            for a, b in zip(recs0, r2[1]))
+                    add(kind, params={'s': s, 'EPD_times_s': epd0 * s, 'object': 'infinite' if obj_inf else 'finite'},
+                        timpl=r2[1], direct=d, tol=tol_s, **common)
+                    if kind == 'scale':
+                        lg = math.log10(s)
+                        hist['scale_factor_s'][('[0.01,0.1)' if lg < -1 else '[0.1,1)' if lg < 0 else '[1,10)' if lg < 1 else '[10,100]')] += 1
+                        hist['scale_factor_s']['end 0.01'] += int(s == 0.01)
+                        hist['scale_factor_s']['end 100'] += int(s == 100.0)
+                        e_ = epd0 * s
+                        hist['EPD_times_s']['infinite object' if obj_inf else 'finite object'][
+                            '<0.1' if e_ < 0.1 else '[0.1,1)' if e_ < 1 else '[1,10)' if e_ < 10 else '>=10'] += 1
             # ---- dummy surface: a random interior split of a random gap for every ray and, for the first ray of the
             #      lens, the two CONTACT splits (f = 0: dummy on the previous vertex, f = 1: on the next vertex, i.e. a
             #      zero thickness in the prescription) of EVERY gap from behind surface 1 to the image
@@ -386,7 +472,7 @@ def _model_line(c, name):
         b = lambda v: 'true' if v else 'false'
         call = f'trace {name} (mirror_ray {b(c["params"]["mx"])} {b(c["params"]["my"])} {r0})'
         launch = f'close_list {fh(1e-12)} (ray_fields (mirror_ray {b(c["params"]["mx"])} {b(c["params"]["my"])} {r0})) {vlib.flist(c["timpl"][0])}'
-    elif k == 'scale':
+    elif k in ('scale', 'scale_system_rays'):
         s = c['params']['s']
         call = f'trace (map (scale_surf (O:=FOps) {fh(s)}) {name}) (scale_ray (O:=FOps) {fh(s)} {r0})'
         flat = [v / s if j in (0, 1, 2, 7) else v for rec in c['timpl'] for j, v in enumerate(rec)]
